@@ -8,7 +8,7 @@ use sonic_rs::{JsonContainerTrait, JsonValueMutTrait, JsonValueTrait, Value};
 use crate::{
     dump,
     entry::guarded,
-    gen::{self, Cfg},
+    gen::{self, Cfg, G},
     out::{hex, Out},
     p_get::sorted_dump,
     rng::Rng,
@@ -412,6 +412,106 @@ pub fn run_c19(out: &mut Out, tier: &str, seed: u64) {
             let r = (a == a, a == cl, cl == a, a == a2, a2 == a, na == na2);
             out.count("eqreflexive");
             out.case("expect", &["equality is reflexive (repeated member names allowed)", &hex(&doc)], &if r == (true, true, true, true, true, true) { "true".to_string() } else { format!("{r:?}") }, true);
+        }
+    }
+    // `==` on parsed documents is exactly the model's comparison (Model/ObjEq.obj_eq at every object, operands
+    // exchanged where the code exchanges them): both directions, repeated member names included - the model that
+    // carries the symmetry theorem and its refutation (F7) is run against the code (op valeq)
+    {
+        fn shuffle(g: &G, rng: &mut Rng) -> G {
+            match g {
+                G::Obj(ms) => {
+                    let mut v: Vec<_> = ms.iter().map(|(k, r, x)| (k.clone(), r.clone(), shuffle(x, rng))).collect();
+                    for i in (1..v.len()).rev() {
+                        let j = rng.below(i + 1);
+                        v.swap(i, j);
+                    }
+                    G::Obj(v)
+                }
+                G::Arr(xs) => G::Arr(xs.iter().map(|x| shuffle(x, rng)).collect()),
+                o => o.clone(),
+            }
+        }
+        fn damage(g: &G, rng: &mut Rng) -> G {
+            match g {
+                G::Obj(ms) if !ms.is_empty() => {
+                    let mut v = ms.clone();
+                    let i = rng.below(v.len());
+                    match rng.below(3) {
+                        0 => {
+                            v.remove(i);
+                        }
+                        1 => v[i].2 = damage(&v[i].2, rng),
+                        _ => {
+                            let j = rng.below(v.len());
+                            let x = v[j].2.clone();
+                            v[i].2 = x;
+                        }
+                    }
+                    G::Obj(v)
+                }
+                G::Arr(xs) if !xs.is_empty() => {
+                    let mut v = xs.clone();
+                    let i = rng.below(v.len());
+                    v[i] = damage(&v[i], rng);
+                    G::Arr(v)
+                }
+                G::Null => G::Bool(false),
+                G::Num(_) => G::Num(rng.pick(&["0", "-0", "0.0", "-0.0", "1", "1.0", "1e0", "18446744073709551615", "-1"]).to_string()),
+                _ => G::Null,
+            }
+        }
+        // the second occurrence of a repeated name gets a name of its own (the shape of the F7 witness)
+        fn rename_dup(g: &G) -> G {
+            match g {
+                G::Obj(ms) => {
+                    let mut v: Vec<_> = ms.iter().map(|(k, r, x)| (k.clone(), r.clone(), rename_dup(x))).collect();
+                    for j in 1..v.len() {
+                        if v[..j].iter().any(|m| m.0 == v[j].0) {
+                            v[j].0 = "fresh\u{1}name".into();
+                            v[j].1 = "\"fresh\\u0001name\"".into();
+                            break;
+                        }
+                    }
+                    G::Obj(v)
+                }
+                G::Arr(xs) => G::Arr(xs.iter().map(rename_dup).collect()),
+                o => o.clone(),
+            }
+        }
+        let tf = |b: bool| if b { 't' } else { 'f' };
+        let mut valeq = |out: &mut Out, t1: &[u8], t2: &[u8]| {
+            let r = guarded(|| -> Result<String, String> {
+                let a: Result<Value, _> = sonic_rs::from_slice(t1);
+                let b: Result<Value, _> = sonic_rs::from_slice(t2);
+                Ok(match (a, b) {
+                    (Ok(a), Ok(b)) => format!("{}{}", tf(a == b), tf(b == a)),
+                    _ => "parse-error".into(),
+                })
+            });
+            out.count("valeq");
+            out.case("valeq", &[&hex(t1), &hex(t2)], &match r { Ok(Ok(s)) => s, Ok(Err(e)) => e, Err(p) => format!("panic:{p}") }, true);
+        };
+        for (a, b) in [("{\"a\":1,\"a\":2}", "{\"a\":1,\"b\":2}"), ("{\"a\":1,\"a\":2}", "{\"a\":2,\"a\":1}"), ("{\"a\":1,\"a\":2}", "{\"a\":1,\"a\":3}"), ("[{\"a\":1,\"a\":2}]", "[{\"a\":1,\"b\":2}]"),
+            ("{\"k\":{\"a\":1,\"a\":2}}", "{\"k\":{\"a\":1,\"b\":2}}"), ("0.0", "-0.0"), ("0", "-0"), ("1", "1.0"), ("[1,2]", "[1,2.0]"), ("\"a\"", "\"\\u0061\""), ("{}", "[]"), ("[[{\"x\":null,\"x\":1}]]", "[[{\"x\":null,\"y\":1}]]")] {
+            valeq(out, a.as_bytes(), b.as_bytes());
+        }
+        let cfgd = Cfg { dup_free: false, max_depth: 3, ..Cfg::default() };
+        for i in 0..(if tier == "thorough" { 12000 } else { 1500 }) {
+            let g = gen::gen_doc(&mut rng, &cfgd);
+            let g1 = if i % 3 != 1 { crate::p_get::repeat_members(&g, &mut rng) } else { g.clone() };
+            let g2 = match rng.below(8) {
+                6 | 7 => rename_dup(&g1),
+                0 => g1.clone(),
+                1 => shuffle(&g1, &mut rng),
+                2 => crate::p_get::repeat_members(&g, &mut rng),
+                3 => shuffle(&crate::p_get::repeat_members(&g, &mut rng), &mut rng),
+                4 => damage(&g1, &mut rng),
+                _ => shuffle(&damage(&g1, &mut rng), &mut rng),
+            };
+            let t1 = gen::render_doc(&g1, &mut rng, &cfgd);
+            let t2 = gen::render_doc(&g2, &mut rng, &cfgd);
+            valeq(out, &t1, &t2);
         }
     }
     // integers compare by value, whatever class they are stored in and however they were built
